@@ -301,6 +301,7 @@ def atom_text(v) -> str:
     return repr(v)
 
 
+STR_ATTRS: set = set()  # attribute names that only ever hold text literals in the tree under analysis (model.Repo.str_attrs, set by report.Ctx)
 SEQ_TEXTS: set = set()  # `self.<name>` texts that only ever hold lists / dicts / texts in the tree under analysis (set by report.Ctx)
 STR_CALLS = (".strftime", ".isoformat")  # methods whose result is text whatever the receiver
 BYTES_CALLS = ("encode_item_header", "struct.pack", "bytes", "bytearray", ".to_bytes", ".encode", ".join")
@@ -471,10 +472,108 @@ class Summariser:
             if conds is None:
                 continue  # contradictory integer constraints: the path cannot be taken
             p.conds = tuple(sorted(conds))
+            self._drop_dead_loop_locals(p)
             self._renumber(p)
+            self._rename_loop_locals(p)
             feasible.append(p)
         feasible.sort(key=lambda p: (p.conds, p.kind, p.value or ""))
         return feasible
+
+    _LOOP_LOCAL = re.compile(r"(?<![A-Za-z0-9_.'\"])([A-Za-z_][A-Za-z0-9_]*)(?= ?@ ?(?:loop|after|cur|partial)\d+)")
+
+    def _rename_loop_locals(self, p):
+        """Locals that a loop carries from iteration to iteration appear in the summary under their own names
+        (`token@loop1`).  The names are the programmer's; on the finished path they are replaced by `v1, v2, ...` in order of
+        first appearance (effects in program order, then the value, then the conditions)."""
+        order = []
+
+        def note(t):
+            for m in self._LOOP_LOCAL.finditer(t):
+                if m.group(1) not in order and not re.fullmatch(r"v\d+", m.group(1)):
+                    order.append(m.group(1))
+
+        def walk(e):
+            if isinstance(e, str):
+                note(e)
+            elif isinstance(e, (tuple, list)):
+                for x in e:
+                    walk(x)
+
+        walk(tuple(p.effects))
+        note(p.value or "")
+        for c, _ in p.conds:
+            note(c)
+        if not order:
+            return
+        mapping = {old: f"v{i + 1}" for i, old in enumerate(order)}
+        pat = re.compile(r"(?<![A-Za-z0-9_.'\"])(" + "|".join(re.escape(k) for k in sorted(mapping, key=len, reverse=True)) + r")(?= ?@ ?(?:loop|after|cur|partial|it)\d*)")
+
+        def sub(t):
+            return pat.sub(lambda m: mapping[m.group(1)], t)
+
+        def deep(e):
+            if isinstance(e, str):
+                return sub(e)
+            if isinstance(e, tuple):
+                return tuple(deep(x) for x in e)
+            if isinstance(e, list):
+                return [deep(x) for x in e]
+            return e
+
+        p.effects = list(deep(tuple(p.effects)))
+        p.conds = tuple(sorted((sub(c), pol) for c, pol in p.conds))
+        if isinstance(p.value_obj, Seq):
+            p.value_obj = Seq(p.value_obj.kind, deep(tuple(p.value_obj.parts)))
+            p.value = text(p.value_obj)
+        elif p.value is not None:
+            p.value = sub(p.value)
+            if isinstance(p.value_obj, (Term, Poly)):
+                p.value_obj = Term(p.value, getattr(p.value_obj, "kind", None))
+
+    _SET_NAME = re.compile(r"^([A-Za-z_][A-Za-z0-9_]*)@loop(\d+)$")
+
+    def _drop_dead_loop_locals(self, p):
+        """A local that a loop body assigns is reported as `set v@loopK value` because a later iteration, or the code after
+        the loop, may read it.  If nothing on this path mentions `v@loopK` / `v@afterK` apart from that report - the local
+        is written and read within one iteration only - the report is no behaviour: it is dropped (so that renaming or
+        inlining such a local is no difference)."""
+        def texts(e, skip):
+            if e is skip:
+                return
+            if isinstance(e, str):
+                yield e
+            elif isinstance(e, tuple):
+                for x in e:
+                    yield from texts(x, skip)
+
+        def sets(effects):
+            for e in effects:
+                if isinstance(e, tuple) and e and e[0] == "set" and isinstance(e[1], str) and self._SET_NAME.match(e[1]):
+                    yield e
+                elif isinstance(e, tuple):
+                    for x in e:
+                        if isinstance(x, tuple):
+                            yield from sets((x,) if x and isinstance(x[0], str) else x)
+
+        changed = True
+        while changed:
+            changed = False
+            for st in list(sets(p.effects)):
+                m = self._SET_NAME.match(st[1])
+                names = (st[1], f"{m.group(1)}@after{m.group(2)}")
+                pat = re.compile("|".join(re.escape(n) + r"(?![0-9])" for n in names))
+                other = list(texts(tuple(p.effects), st)) + [t for t, _ in p.conds] + [p.value or ""]
+                if any(pat.search(t) for t in other):
+                    continue
+                # (its own new value may mention the old one - "unchanged on the other branches" - that is no reader)
+                def remove(e):
+                    if isinstance(e, tuple):
+                        return tuple(remove(x) for x in e if x is not st)
+                    return e
+
+                p.effects = list(remove(tuple(p.effects)))
+                changed = True
+                break
 
     _LOOP_NO = re.compile(r"(?<![A-Za-z0-9_])(_[ie]|@loop|@after|@cur|@partial)(\d+)(?![0-9])")
 
@@ -553,6 +652,8 @@ class Summariser:
 
     def _texts(self, p):
         yield p.value or ""
+        for c, _ in p.conds:  # a condition that mentions a conditional value (`x in f(A if c else B)`) depends on c as well
+            yield c
 
         def walk(effects):
             for e in effects:
@@ -677,6 +778,26 @@ class Summariser:
             return res
 
         p.effects = sub_eff(p.effects)
+        def sub_cond(t: str) -> str:
+            # a condition text went through the unparser, which drops the parentheses of a conditional expression that is a
+            # call argument: both spellings are replaced, and the result is put through the unparser again
+            new = t
+            for ctxt, (c, a, b) in sorted(self.condterms.items(), key=lambda kv: -len(kv[0])):
+                if c != ctext:
+                    continue
+                val = "(" + (a if branch else b) + ")"
+                if ctxt in new:
+                    new = new.replace(ctxt, val)
+                elif ctxt.startswith("(") and ctxt.endswith(")") and ctxt[1:-1] in new:
+                    new = new.replace(ctxt[1:-1], val)
+            if new == t:
+                return sub(t)
+            try:
+                return ast.unparse(ast.parse(new, mode="eval").body)
+            except SyntaxError:
+                return new
+
+        p.conds = tuple(sorted({(sub_cond(c), pol) for c, pol in p.conds}))
         return p
 
     # ------------------------------------------------------------------ conditions
@@ -686,6 +807,14 @@ class Summariser:
         try:
             parsed = ast.parse(txt, mode="eval").body
         except SyntaxError:
+            # a value the text of which is no expression (an accumulator over a loop, ...): keep the atom opaque, but read
+            # the connectives the test itself is written with - `not X`, `X != k` are the atom of `X` / `X == k`, negated
+            if isinstance(test, ast.UnaryOp) and isinstance(test.op, ast.Not):
+                t_, f_, d_ = self.cond(test.operand, env)
+                return f_, t_, txt
+            if isinstance(test, ast.Compare) and len(test.ops) == 1 and isinstance(test.ops[0], ast.Eq):
+                t_, f_, d_ = self.cond(ast.copy_location(ast.Compare(left=test.left, ops=[ast.NotEq()], comparators=test.comparators), test), env)
+                return f_, t_, txt
             return [(txt, True)], [(txt, False)], txt
         cnd.EMPTINESS[0] = False
         try:
@@ -711,7 +840,7 @@ class Summariser:
         """`if xs:` / `if not xs:` on a sequence value is a test of its length."""
         def is_seq(n):
             if isinstance(n, ast.Attribute):
-                return norm(n) in SEQ_TEXTS  # an attribute that only ever holds lists / dicts / texts (model.Repo.seq_texts)
+                return norm(n) in SEQ_TEXTS or norm(n) in self.seq_names  # an attribute that only ever holds lists / dicts / texts (model.Repo.seq_texts / class_seq_attrs)
             if not isinstance(n, ast.Name):
                 return False
             v = env.get(n.id)
@@ -1051,6 +1180,13 @@ class Summariser:
                         env[f.value.id] = Seq(seq.kind, seq.parts + (part,))
                         return state
                     v = self.ev(c.args[0], env)
+                    if f.attr == "append" and isinstance(v, Term) and v.text in self.condterms and self.condterms[v.text][0] in self.atoms:
+                        # a local that was given A on one branch and B on the other, appended after the join: the same
+                        ctext_, ta_, tb_ = self.condterms[v.text]
+                        ct_, cf_ = self.atoms[ctext_]
+                        part = self.mk_if(ct_, cf_, (("e", ta_),), (("e", tb_),), boolean_parts=True)
+                        env[f.value.id] = Seq(seq.kind, seq.parts + (part,))
+                        return state
                     if f.attr == "append":
                         env[f.value.id] = Seq(seq.kind, seq.parts + (("e", text(v)),))
                     elif isinstance(v, Seq):
@@ -1499,7 +1635,7 @@ class Summariser:
             key = "@" + f"{self._c(node.value, env)}.{node.attr}"
             if key in env:
                 return env[key]
-            return Term(t)
+            return Term(t, "str" if node.attr in STR_ATTRS else None)
         if isinstance(node, ast.Call) and not self._is_bool_call(node):
             return self.call(node, env)
         if isinstance(node, (ast.Compare, ast.BoolOp)) or (isinstance(node, ast.UnaryOp) and isinstance(node.op, ast.Not)) or self._is_bool_call(node):
@@ -1695,6 +1831,15 @@ class Summariser:
             sym = {ast.Add: "+", ast.Sub: "-", ast.Mult: "*", ast.FloorDiv: "//", ast.Mod: "%", ast.LShift: "<<", ast.RShift: ">>", ast.BitAnd: "&", ast.BitOr: "|", ast.BitXor: "^", ast.Div: "/", ast.Pow: "**", ast.MatMult: "@"}[type(n.op)]
             return f"({self._c(n.left, env)} {sym} {self._c(n.right, env)})"
         if isinstance(n, ast.JoinedStr):
+            busy = self.__dict__.setdefault("_fstring_busy", set())
+            if any(isinstance(v, ast.FormattedValue) for v in n.values) and id(n) not in busy:
+                busy.add(id(n))
+                try:
+                    val = self.ev(n, dict(env))  # an f-string of texts is their concatenation (same form as `a + b`)
+                finally:
+                    busy.discard(id(n))
+                if not (isinstance(val, Term) and val.text.startswith(("f'", 'f"'))):
+                    return atom_text(val)
             out = ""
             for v in n.values:
                 if isinstance(v, ast.Constant):
